@@ -99,6 +99,7 @@ class Sim(object):
         self.snapshot_msgs = 0
         self.unanswered_at_leader_change = False
         self.counters = collections.Counter()
+        self.held = {}              # (from, to) -> step number until which deliveries in that direction are delayed
         self.idname = None
         self.on_send_hooks = []
         self.on_deliver_hooks = []
@@ -260,6 +261,7 @@ class Sim(object):
         50 ms, 1-byte snapshot chunks) a leader would restart every snapshot transfer before it can finish, and a
         snapshot install skips callbacks - artefacts of the configuration, not of the history being checked."""
         self.quiet = True
+        self.held.clear()
         for conf in self.confs.values():
             conf.logCompactionMinEntries = 10 ** 9
             conf.logCompactionMinTime = 10.0 ** 9
@@ -343,8 +345,27 @@ class Sim(object):
         for g in self.net.gens:
             for to in (g.b, g.a):
                 if self.net.deliverable(g, to):
+                    h = self.held.get((g.peer(to), to))
+                    if h is not None:
+                        if h > self.step_no:
+                            continue            # this direction is slow right now (op_hold)
+                        del self.held[(g.peer(to), to)]
                     out.append((g, to))
         return out
+
+    def op_hold(self, a, b, c):
+        """Everything travelling from x to y is delayed for the next d steps (the reverse direction and all other
+        links keep working): replies and requests arrive late, possibly in a later term."""
+        names = self.live()
+        if len(names) < 2:
+            return False
+        x = names[a % len(names)]
+        others = [n for n in names if n != x]
+        y = others[b % len(others)]
+        d = [5, 15, 40, 100][c % 4]
+        self.held[(x, y)] = self.step_no + d
+        self.counters['holds'] += 1
+        return (x, y, d)
 
     def op_tickall(self, a, b, c):
         names = self.live()
@@ -646,10 +667,119 @@ class Sim(object):
         self.counters['lagsnap_completed'] += 1
         return (L, F, x, mode, portion)
 
+    def op_stalereply(self, a, b, c):
+        """Macro step (5 voters): leader A of term T writes x entries that reach only B, whose replies are delayed;
+        the other three elect a leader and commit; A follows them, is elected again in a later term and appends;
+        one other voter acknowledges; then B's replies from term T arrive. (B stays cut off from the three.)"""
+        voters = [v for v in self.voters if v in self.nodes]
+        if len(voters) != 5 or len(self.voters) != 5:
+            return False
+        leaders = lambda grp: [v for v in grp if v in self.nodes and self.nodes[v]._isLeader()]
+        self.blocked = set()
+        self.held.clear()
+        if not self.rounds_until(lambda: len(leaders(voters)) == 1, 300) or self.viol:
+            return False
+        for _ in range(5):
+            self.calm_round()
+        if len(leaders(voters)) != 1:
+            return False
+        A = leaders(voters)[0]
+        rest = [v for v in voters if v != A]
+        B = rest[a % 4]
+        three = [v for v in rest if v != B]
+        names = self.voters + self.ro
+
+        def allow(pairs):
+            self.blocked = set(frozenset((x, y)) for x in names for y in names if x < y and frozenset((x, y)) not in pairs)
+            for g in self.net.gens:
+                if g.alive and frozenset((g.a, g.b)) in self.blocked:
+                    self.net.break_(g, 0, 0)
+            for g, x in self._noticeables():
+                self.net.notice(g, x)
+
+        def clique(grp):
+            return set(frozenset((x, y)) for x in grp for y in grp if x != y)
+
+        def link(x, y):
+            for g in self.net.gens:
+                if g.alive and set((g.a, g.b)) == set((x, y)):
+                    return g
+
+        def deliver(frm, to):
+            g = link(frm, to)
+            while g is not None and self.net.deliver(g, to):
+                pass
+
+        def run(grp, rounds, until=None):
+            for _ in range(rounds):
+                for x, y in self._connectables():
+                    if x in grp and y in grp:
+                        self.net.connect(x, y)
+                for n in grp:
+                    if n in self.nodes:
+                        self.tick_node(n, 0.02)
+                for g, to in self._deliverables():
+                    if to in grp and g.peer(to) in grp:
+                        while self.net.deliver(g, to):
+                            pass
+                self.check(light=True)
+                if self.viol or (until and until()):
+                    break
+        allow(clique(three) | {frozenset((A, B))})
+        if link(A, B) is None:
+            return (A, B, 'no-link')
+        x = 1 + b % 3
+        for _ in range(x):
+            self.submit(A, self.payload(1, self.next_cid))
+            self.tick_node(A, 0.02)
+            deliver(A, B)
+            self.check(light=True)
+        run(set(three), 800, lambda: len(leaders(three)) == 1)
+        if self.viol or len(leaders(three)) != 1:
+            return (A, B, 'no-second-leader')
+        L2 = leaders(three)[0]
+        if (c >> 2) & 1:
+            self.submit(L2, self.payload(1, self.next_cid))
+        run(set(three), 10)
+        allow(clique(set(three) | {A}) | {frozenset((A, B))})
+        run(set(three) | {A}, 30)
+        others = [v for v in three if v != L2]
+        g3 = set(others) | {A}
+        allow(clique(g3) | {frozenset((A, B))})
+        for _ in range(800):
+            if self.viol or A not in self.nodes or self.nodes[A]._isLeader():
+                break
+            self.tick_node(A, 0.02)
+            for o in others:
+                self.tick_node(o, 0.0001)
+            for g, to in self._deliverables():
+                if to in g3 and g.peer(to) in g3:
+                    while self.net.deliver(g, to):
+                        pass
+            self.check(light=True)
+        if self.viol or not self.nodes[A]._isLeader():
+            return (A, B, L2, 'not-reelected')
+        for _ in range(1 + c % 2):
+            self.submit(A, self.payload(1, self.next_cid))
+        self.tick_node(A, 0.02)
+        D = others[c % 2]
+        deliver(A, D)
+        deliver(D, A)
+        self.check(light=True)
+        stale = len(link(A, B).q[A]) if link(A, B) is not None else 0
+        deliver(B, A)
+        self.tick_node(A, 0.02)
+        self.check(light=True)
+        self.counters['stalereply_completed'] += 1
+        self.counters['stale_replies_delivered'] += stale
+        self.blocked = set()
+        return (A, B, L2, x, stale)
+
     def op_heal(self, a, b, c):
-        if not self.blocked:
+        if not self.blocked and not self.held:
             return False
         self.blocked = set()
+        self.held.clear()
         return ()
 
     def op_rojoin(self, a, b, c):
